@@ -104,4 +104,337 @@ theorem keys_filter_sublist {κ ν : Type} (p : κ × ν → Bool) (l : List (κ
   unfold AList.keys
   exact (List.filter_sublist).map _
 
+/-! ### the sequential world: invariant and its preservation by the building blocks of the operations -/
+
+/-- Representation invariant of the world: one file per identifier, one cache entry per identifier and instance,
+    and a cached object carries the identifier it is cached under. -/
+structure Inv (w : W) : Prop where
+  diskNodup : (AList.keys w.disk).Nodup
+  cacheNodup : ∀ k, (AList.keys (cacheOf w k)).Nodup
+  cacheId : ∀ k i r, AList.get i (cacheOf w k) = some r → ∃ o, w.heap[r]? = some o ∧ o.id = i
+
+theorem inv_init : Inv init := by
+  refine ⟨by simp [init, AList.keys], ?_, ?_⟩
+  · intro k; simp [cacheOf, getAt, init, AList.keys]
+  · intro k i r h; simp [cacheOf, getAt, init] at h
+
+/-- replace object `r` by `o'` -/
+def modObj (w : W) (r : Ref) (o' : Obj) : W := { w with heap := w.heap.set r o' }
+/-- replace the cache of instance `k` -/
+def modCache (w : W) (k : Nat) (c : List (Id × Ref)) : W := { w with caches := setAt w.caches k c }
+/-- allocate a new object -/
+def alloc (w : W) (o : Obj) : W := { w with heap := w.heap ++ [o] }
+
+@[simp] theorem cacheOf_modObj (w r o' k) : cacheOf (modObj w r o') k = cacheOf w k := rfl
+@[simp] theorem cacheOf_alloc (w o k) : cacheOf (alloc w o) k = cacheOf w k := rfl
+@[simp] theorem cacheOf_modCache_same (w k c) : cacheOf (modCache w k c) k = c := getAt_setAt_same _ _ _
+theorem cacheOf_modCache_other (w) {k j} (c) (h : j ≠ k) : cacheOf (modCache w k c) j = cacheOf w j :=
+  getAt_setAt_other _ _ h
+@[simp] theorem disk_modObj (w r o') : (modObj w r o').disk = w.disk := rfl
+@[simp] theorem disk_alloc (w o) : (alloc w o).disk = w.disk := rfl
+@[simp] theorem disk_modCache (w k c) : (modCache w k c).disk = w.disk := rfl
+@[simp] theorem heap_modCache (w k c) : (modCache w k c).heap = w.heap := rfl
+
+theorem heap_modObj_get (w : W) (r r' : Ref) (o o' : Obj) (h : w.heap[r]? = some o) :
+    (modObj w r o').heap[r']? = if r' = r then some o' else w.heap[r']? := by
+  have hr : r < w.heap.length := by
+    rcases Nat.lt_or_ge r w.heap.length with h' | h'
+    · exact h'
+    · rw [List.getElem?_eq_none_iff.2 h'] at h; cases h
+  simp only [modObj, List.getElem?_set]
+  by_cases e : r' = r
+  · subst e; simp [hr]
+  · have : r ≠ r' := fun x => e x.symm
+    simp [e, this]
+
+theorem heap_alloc_get (w : W) (o : Obj) (r' : Ref) (o' : Obj) (h : w.heap[r']? = some o') :
+    (alloc w o).heap[r']? = some o' := by
+  have hr : r' < w.heap.length := by
+    rcases Nat.lt_or_ge r' w.heap.length with h' | h'
+    · exact h'
+    · rw [List.getElem?_eq_none_iff.2 h'] at h; cases h
+  simp only [alloc]
+  rw [List.getElem?_append_left hr]; exact h
+
+theorem heap_alloc_new (w : W) (o : Obj) : (alloc w o).heap[w.heap.length]? = some o := by
+  simp [alloc]
+
+/-- changing an object without changing its identifier keeps the invariant -/
+theorem inv_modObj {w : W} {r : Ref} {o o' : Obj} (hI : Inv w) (h : w.heap[r]? = some o) (hid : o'.id = o.id) :
+    Inv (modObj w r o') := by
+  refine ⟨hI.diskNodup, fun k => hI.cacheNodup k, ?_⟩
+  intro k i r' hc
+  obtain ⟨o2, h2, hi⟩ := hI.cacheId k i r' hc
+  rw [heap_modObj_get w r r' o o' h]
+  by_cases e : r' = r
+  · subst e; rw [h] at h2; injection h2 with h2; subst h2
+    exact ⟨o', by simp, by rw [hid, hi]⟩
+  · exact ⟨o2, by simp [e, h2], hi⟩
+
+theorem inv_alloc {w : W} (o : Obj) (hI : Inv w) : Inv (alloc w o) := by
+  refine ⟨hI.diskNodup, fun k => hI.cacheNodup k, ?_⟩
+  intro k i r' hc
+  obtain ⟨o2, h2, hi⟩ := hI.cacheId k i r' hc
+  exact ⟨o2, heap_alloc_get w o r' o2 h2, hi⟩
+
+/-- caching object `r` under its own identifier keeps the invariant -/
+theorem inv_cache_set {w : W} {k : Nat} {i : Id} {r : Ref} {o : Obj} (hI : Inv w) (h : w.heap[r]? = some o) (hid : o.id = i) :
+    Inv (modCache w k (AList.set i r (cacheOf w k))) := by
+  refine ⟨hI.diskNodup, ?_, ?_⟩
+  · intro j
+    by_cases e : j = k
+    · subst e; rw [cacheOf_modCache_same]; exact AList.nodup_keys_set (hI.cacheNodup j)
+    · rw [cacheOf_modCache_other _ _ e]; exact hI.cacheNodup j
+  · intro j i' r' hc
+    by_cases e : j = k
+    · subst e; rw [cacheOf_modCache_same] at hc
+      by_cases ei : i' = i
+      · subst ei; rw [AList.get_set_same] at hc; injection hc with hc; subst hc; exact ⟨o, h, hid⟩
+      · rw [AList.get_set_other _ _ ei] at hc; exact hI.cacheId j i' r' hc
+    · rw [cacheOf_modCache_other _ _ e] at hc; exact hI.cacheId j i' r' hc
+
+theorem inv_cache_erase {w : W} {k : Nat} {i : Id} (hI : Inv w) :
+    Inv (modCache w k (AList.erase i (cacheOf w k))) := by
+  refine ⟨hI.diskNodup, ?_, ?_⟩
+  · intro j
+    by_cases e : j = k
+    · subst e; rw [cacheOf_modCache_same]; exact AList.nodup_keys_erase (hI.cacheNodup j)
+    · rw [cacheOf_modCache_other _ _ e]; exact hI.cacheNodup j
+  · intro j i' r' hc
+    by_cases e : j = k
+    · subst e; rw [cacheOf_modCache_same] at hc
+      by_cases ei : i' = i
+      · subst ei; rw [AList.get_erase_same_of_nodup (hI.cacheNodup j)] at hc; cases hc
+      · rw [AList.get_erase_other _ ei] at hc; exact hI.cacheId j i' r' hc
+    · rw [cacheOf_modCache_other _ _ e] at hc; exact hI.cacheId j i' r' hc
+
+theorem inv_disk {w : W} {d : List (Id × Ver)} (hI : Inv w) (hd : (AList.keys d).Nodup) : Inv { w with disk := d } :=
+  ⟨hd, hI.cacheNodup, hI.cacheId⟩
+
+
+theorem get_cases (w : W) (k : Nat) (i : Id) :
+    (AList.get i w.disk = none ∧ get w k i = (w, .keyError)) ∨
+    (∃ v, AList.get i w.disk = some v ∧
+      ((∃ r o, AList.get i (cacheOf w k) = some r ∧ w.heap[r]? = some o ∧ o.bound = true ∧
+          get w k i = (modObj w r { o with ver := v, live := true }, .obj r)) ∨
+       ((∀ r o, AList.get i (cacheOf w k) = some r → w.heap[r]? = some o → o.bound = false) ∧
+          get w k i = (modCache (alloc w ⟨i, v, true, true⟩) k (AList.set i w.heap.length (cacheOf w k)),
+                       .obj w.heap.length)))) := by
+  unfold get
+  cases hd : AList.get i w.disk with
+  | none => left; exact ⟨rfl, rfl⟩
+  | some v =>
+    right; refine ⟨v, rfl, ?_⟩
+    simp only []
+    cases hc : AList.get i (cacheOf w k) with
+    | none => right; exact ⟨(by intro r o h; cases h), rfl⟩
+    | some r =>
+      simp only []
+      cases hh : w.heap[r]? with
+      | none => right; refine ⟨?_, rfl⟩; intro r' o' h1 h2; injection h1 with h1; subst h1; rw [hh] at h2; cases h2
+      | some o =>
+        simp only []
+        by_cases hb : o.bound = true
+        · left; exact ⟨r, o, rfl, hh, hb, by simp [hb, modObj]⟩
+        · right; refine ⟨?_, (by simp [hb]; rfl)⟩
+          intro r' o' h1 h2; injection h1 with h1; subst h1; rw [hh] at h2; injection h2 with h2; subst h2
+          simpa using hb
+
+/-! ### retrieval -/
+
+/-- object `r` exists, has identifier `i` and holds the stored version -/
+def Holds (w : W) (r : Ref) (i : Id) : Prop :=
+  ∃ o, w.heap[r]? = some o ∧ o.id = i ∧ AList.get i w.disk = some o.ver
+
+/-- everything one `get` guarantees -/
+structure GetPost (w : W) (k : Nat) (i : Id) (w' : W) (out : Out) : Prop where
+  miss : AList.get i w.disk = none → w' = w ∧ out = .keyError
+  hit : ∀ v, AList.get i w.disk = some v →
+      ∃ r o, out = .obj r ∧ w'.heap[r]? = some o ∧ o.id = i ∧ o.ver = v ∧ o.bound = true ∧ o.live = true ∧
+        AList.get i (cacheOf w' k) = some r
+  same : ∀ r, AList.get i (cacheOf w k) = some r → (∃ o, w.heap[r]? = some o ∧ o.bound = true) →
+      (AList.get i w.disk).isSome → out = .obj r
+  disk : w'.disk = w.disk
+  inv : Inv w'
+  holds : ∀ (r' : Ref) (i' : Id), Holds w r' i' → Holds w' r' i'
+  cacheKeep : ∀ (k' : Nat) (i' : Id) (r' : Ref), (k' ≠ k ∨ i' ≠ i) → AList.get i' (cacheOf w k') = some r' → AList.get i' (cacheOf w' k') = some r'
+  heapKeep : ∀ (r' : Ref) (o' : Obj), w.heap[r']? = some o' →
+      ∃ o'' : Obj, w'.heap[r']? = some o'' ∧ o''.id = o'.id ∧ o''.bound = o'.bound ∧ (o'.live = true → o''.live = true)
+
+theorem get_post (w : W) (k : Nat) (i : Id) (hI : Inv w) : GetPost w k i (get w k i).1 (get w k i).2 := by
+  rcases get_cases w k i with ⟨hd, hg⟩ | ⟨v, hd, ⟨r, o, hc, hh, hb, hg⟩ | ⟨hnb, hg⟩⟩
+  · rw [hg]
+    exact ⟨fun _ => ⟨rfl, rfl⟩, fun v h => (by rw [hd] at h; cases h), fun r _ _ h => (by rw [hd] at h; cases h), rfl, hI,
+           fun _ _ h => h, fun _ _ _ _ h => h, fun r' o' h => ⟨o', h, rfl, rfl, fun x => x⟩⟩
+  · -- refresh the cached replica
+    rw [hg]
+    obtain ⟨o2, h2, hid⟩ := hI.cacheId k i r hc
+    rw [hh] at h2; injection h2 with h2; subst h2
+    have hget := fun r' => heap_modObj_get w r r' o { o with ver := v, live := true } hh
+    refine ⟨fun h => (by rw [hd] at h; cases h), ?_, ?_, rfl, inv_modObj hI hh rfl, ?_, fun _ _ _ _ h => h, ?_⟩
+    · intro v' hv; rw [hd] at hv; injection hv with hv; subst hv
+      exact ⟨r, { o with ver := v, live := true }, rfl, (by rw [hget r]; simp), hid, rfl, hb, rfl, hc⟩
+    · intro r' hc' _ _; rw [hc] at hc'; injection hc' with hc'; rw [hc']
+    · intro r' i' ⟨o', ho', hi', hv'⟩
+      by_cases e : r' = r
+      · subst e; rw [hh] at ho'; injection ho' with ho'; subst ho'
+        refine ⟨{ o with ver := v, live := true }, (by rw [hget r']; simp), hi', ?_⟩
+        simp only [disk_modObj]
+        rw [← hi', hid]; exact hd
+      · exact ⟨o', (by rw [hget r']; simp [e, ho']), hi', hv'⟩
+    · intro r' o' ho'
+      by_cases e : r' = r
+      · subst e; rw [hh] at ho'; injection ho' with ho'; subst ho'
+        exact ⟨{ o with ver := v, live := true }, (by rw [hget r']; simp), rfl, rfl, fun _ => rfl⟩
+      · exact ⟨o', (by rw [hget r']; simp [e, ho']), rfl, rfl, fun x => x⟩
+  · -- a new replica
+    rw [hg]
+    have hnew := heap_alloc_new w ⟨i, v, true, true⟩
+    have hI1 : Inv (alloc w ⟨i, v, true, true⟩) := inv_alloc _ hI
+    have hI2 := inv_cache_set (k := k) hI1 hnew rfl
+    refine ⟨fun h => (by rw [hd] at h; cases h), ?_, ?_, rfl, hI2, ?_, ?_, ?_⟩
+    · intro v' hv; rw [hd] at hv; injection hv with hv; subst hv
+      exact ⟨w.heap.length, ⟨i, v, true, true⟩, rfl, hnew, rfl, rfl, rfl, rfl, (by simp)⟩
+    · intro r' hc' ⟨o', ho', hb'⟩ _
+      have := hnb r' o' hc' ho'; rw [this] at hb'; cases hb'
+    · intro r' i' ⟨o', ho', hi', hv'⟩
+      exact ⟨o', heap_alloc_get w _ r' o' ho', hi', hv'⟩
+    · intro k' i' r' hne hc'
+      by_cases e : k' = k
+      · subst e
+        have : i' ≠ i := by rcases hne with h | h; exact absurd rfl h; exact h
+        simp only [cacheOf_modCache_same]
+        rw [AList.get_set_other _ _ this]; exact hc'
+      · rw [cacheOf_modCache_other _ _ e]; exact hc'
+    · intro r' o' ho'
+      exact ⟨o', heap_alloc_get w _ r' o' ho', rfl, rfl, fun x => x⟩
+
+/-! ### garbage collection, iteration, pinned replicas -/
+
+theorem liveObj_some {w : W} {r : Ref} {o : Obj} (h : liveObj w r = some o) : w.heap[r]? = some o ∧ o.live = true := by
+  unfold liveObj at h
+  cases hh : w.heap[r]? with
+  | none => simp [hh] at h
+  | some o' =>
+    simp only [hh] at h
+    by_cases hl : o'.live = true
+    · simp [hl] at h; subst h; exact ⟨rfl, hl⟩
+    · simp [hl] at h
+
+theorem getAt_map {α : Type} (f : List α → List α) (hf : f [] = []) (l : List (List α)) (k : Nat) :
+    getAt (l.map f) k = f (getAt l k) := by
+  unfold getAt
+  simp only [List.getElem?_map]
+  cases l[k]? <;> simp [hf]
+
+theorem cacheOf_gc (w : W) (k : Nat) : cacheOf (gc w) k = (cacheOf w k).filter (fun e => isLive w e.2) := by
+  unfold cacheOf gc
+  exact getAt_map _ rfl _ _
+
+theorem inv_gc {w : W} (hI : Inv w) : Inv (gc w) := by
+  refine ⟨hI.diskNodup, ?_, ?_⟩
+  · intro k; rw [cacheOf_gc]; exact (keys_filter_sublist _ _).nodup (hI.cacheNodup k)
+  · intro k i r h; rw [cacheOf_gc] at h
+    exact hI.cacheId k i r (get_filter_some _ (hI.cacheNodup k) h)
+
+/-- the object stays cached under its identifier in instance `k`, bound to the document and alive, and the
+    document exists -/
+def Pinned (w : W) (k : Nat) (i : Id) (r : Ref) : Prop :=
+  AList.get i (cacheOf w k) = some r ∧
+  (∃ o, w.heap[r]? = some o ∧ o.id = i ∧ o.bound = true ∧ o.live = true) ∧
+  (AList.get i w.disk).isSome
+
+theorem get_pinned {w : W} {k0 : Nat} {i0 : Id} {r0 : Ref} (k : Nat) (i : Id) (hI : Inv w) (hp : Pinned w k0 i0 r0) :
+    Pinned (get w k i).1 k0 i0 r0 := by
+  have P := get_post w k i hI
+  obtain ⟨hc, ⟨o, ho, hid, hb, hl⟩, hd⟩ := hp
+  obtain ⟨o2, ho2, hid2, hb2, hl2⟩ := P.heapKeep r0 o ho
+  refine ⟨?_, ⟨o2, ho2, by rw [hid2, hid], by rw [hb2, hb], hl2 hl⟩, by rw [P.disk]; exact hd⟩
+  by_cases e : k = k0 ∧ i = i0
+  · obtain ⟨e1, e2⟩ := e; subst e1; subst e2
+    have hout := P.same r0 hc ⟨o, ho, hb⟩ hd
+    cases hv : AList.get i w.disk with
+    | none => rw [hv] at hd; cases hd
+    | some v =>
+      obtain ⟨r, o', hout', _, _, _, _, _, hc'⟩ := P.hit v hv
+      rw [hout] at hout'; injection hout' with hout'; subst hout'; exact hc'
+  · apply P.cacheKeep k0 i0 r0 _ hc
+    by_cases e1 : k0 = k
+    · right; intro e2; exact e ⟨e1.symm, e2.symm⟩
+    · left; exact e1
+
+inductive AllHold (w : W) : List Id → List Ref → Prop where
+  | nil : AllHold w [] []
+  | cons {i r l rs} : Holds w r i → AllHold w l rs → AllHold w (i :: l) (r :: rs)
+
+theorem AllHold.mono {w w' : W} (h : ∀ (r : Ref) (i : Id), Holds w r i → Holds w' r i) {l rs} (a : AllHold w l rs) :
+    AllHold w' l rs := by
+  induction a with
+  | nil => exact .nil
+  | cons h1 _ ih => exact .cons (h _ _ h1) ih
+
+/-- `__iter__`: every listed document is retrieved. -/
+theorem iterIds_post (k : Nat) : ∀ (l : List Id) (w : W), Inv w → (∀ i ∈ l, (AList.get i w.disk).isSome) →
+    ∃ w' rs, iterIds w k l = (w', some rs) ∧ w'.disk = w.disk ∧ Inv w' ∧
+      AllHold w' l rs ∧
+      (∀ (r' : Ref) (i' : Id), Holds w r' i' → Holds w' r' i') ∧
+      (∀ k0 i0 r0, Pinned w k0 i0 r0 → Pinned w' k0 i0 r0) := by
+  intro l
+  induction l with
+  | nil => intro w hI _; exact ⟨w, [], rfl, rfl, hI, AllHold.nil, fun _ _ h => h, fun _ _ _ h => h⟩
+  | cons i rest ih =>
+    intro w hI hall
+    have P := get_post w k i hI
+    have hi := hall i (by simp)
+    cases hv : AList.get i w.disk with
+    | none => rw [hv] at hi; cases hi
+    | some v =>
+      obtain ⟨r, o, hout, ho, hid, hver, _, _, _⟩ := P.hit v hv
+      have hall' : ∀ j ∈ rest, (AList.get j (get w k i).1.disk).isSome := by
+        intro j hj; rw [P.disk]; exact hall j (by simp [hj])
+      obtain ⟨w'', rs, hit, hdisk, hI'', hf, hkeep, hpin⟩ := ih (get w k i).1 P.inv hall'
+      refine ⟨w'', r :: rs, ?_, by rw [hdisk, P.disk], hI'', ?_, ?_, ?_⟩
+      · simp only [iterIds]
+        have : get w k i = ((get w k i).1, .obj r) := by rw [← hout]
+        rw [this]; simp only [hit]
+      · refine AllHold.cons ?_ hf
+        apply hkeep
+        exact ⟨o, ho, hid, by rw [P.disk, hver]; exact hv⟩
+      · intro r' i' h; exact hkeep r' i' (P.holds r' i' h)
+      · intro k0 i0 r0 h; exact hpin k0 i0 r0 (get_pinned k i hI h)
+
+
+/-- what iteration shows of object `r`: identifier and content -/
+def pairOf (w : W) (r : Ref) : Option (Id × Ver) := (w.heap[r]?).map (fun o => (o.id, o.ver))
+
+theorem allHold_pairs {w : W} {l : List Id} {rs : List Ref} (a : AllHold w l rs) :
+    rs.filterMap (pairOf w) = l.filterMap (fun i => (AList.get i w.disk).map (fun v => (i, v))) := by
+  induction a with
+  | nil => rfl
+  | cons h _ ih =>
+    obtain ⟨o, ho, hid, hv⟩ := h
+    simp only [List.filterMap_cons, pairOf, ho, hv, Option.map_some, ih, hid]
+
+theorem filterMap_congr' {α β : Type} {f g : α → Option β} {l : List α} (h : ∀ x ∈ l, f x = g x) :
+    l.filterMap f = l.filterMap g := by
+  induction l with
+  | nil => rfl
+  | cons a t ih =>
+    simp only [List.filterMap_cons, h a (by simp)]
+    rw [ih (fun x hx => h x (by simp [hx]))]
+
+theorem keys_pairs_self (d : List (Id × Ver)) (hn : (AList.keys d).Nodup) :
+    (AList.keys d).filterMap (fun i => (AList.get i d).map (fun v => (i, v))) = d := by
+  induction d with
+  | nil => rfl
+  | cons hd t ih =>
+    obtain ⟨k, v⟩ := hd
+    have hn' : k ∉ AList.keys t ∧ (AList.keys t).Nodup := by simpa [AList.keys, List.nodup_cons] using hn
+    simp only [AList.keys, List.map_cons, List.filterMap_cons, AList.get, if_true, Option.map_some]
+    congr 1
+    refine Eq.trans (filterMap_congr' ?_) (ih hn'.2)
+    intro i hi
+    have : k ≠ i := fun e => hn'.1 (by rw [e]; exact hi)
+    simp only [this, if_false]
+
 end Basyx.FileStore
